@@ -88,3 +88,15 @@ Theorem C15_judge_ctu_test_accepts_exactly_the_specification :
     CtuModel.judge_ctu_test rec = 0%Z <-> JudgeComplete1.ctu_test_spec m n M rc v r c.
 Proof. exact JudgeComplete1.judge_ctu_test_iff. Qed.
 Print Assumptions C15_judge_ctu_test_accepts_exactly_the_specification.
+
+(* ---------- the judge accepts EXACTLY the records that satisfy its specification (JudgeComplete3.v): completeness besides soundness,
+   a record of a correct answer is never rejected ---------- *)
+From Cmr Require JudgeComplete3.
+Theorem C15_judge_clictu_accepts_exactly_the_specification :
+    forall (rec : list Z) (mode r c infmt outfmt : Z) (inb : list Z) (rc : Z) 
+    (hasout : bool) (outb rest : list Z),
+    CliProofs.clictu_input rec = Some (mode, r, c, infmt, outfmt, inb, rc, hasout, outb, rest) ->
+    CliModel.judge_clictu rec = 0%Z <->
+    JudgeComplete3.clictu_spec mode r c infmt outfmt inb rc hasout outb.
+Proof. exact JudgeComplete3.judge_clictu_iff. Qed.
+Print Assumptions C15_judge_clictu_accepts_exactly_the_specification.
